@@ -236,3 +236,58 @@ pub fn swallowing_step(gs: &[Group], path: &[(usize, usize)]) -> (Option<usize>,
     }
     (last, posopt)
 }
+
+/// All steps of `path` that enter a Vec element, outermost first.
+pub fn swallowing_steps(gs: &[Group], path: &[(usize, usize)]) -> Vec<usize> {
+    let mut cur = gs;
+    let mut out = vec![];
+    for (k, (gi, ei)) in path.iter().enumerate() {
+        let g = &cur[*gi];
+        if g.card == Card::Vec {
+            out.push(k);
+        }
+        match &g.elems[*ei].node {
+            Node::Struct(inner) => cur = inner,
+            _ => break,
+        }
+    }
+    out
+}
+
+/// Every container of the tree can announce its payload (LLVAR <= 99, LLLVAR <= 999, TLV <= 65535, Fixed<N> <= N).
+pub fn fits(gs: &[Group]) -> bool {
+    gs.iter().all(|g| {
+        g.elems.iter().all(|e| {
+            if e.raw.is_some() {
+                return true;
+            }
+            let (n, inner_ok) = match &e.node {
+                Node::Leaf(b) => (b.len(), true),
+                Node::Struct(inner) => (assemble(inner).len(), fits(inner)),
+            };
+            inner_ok
+                && match e.len {
+                    Len::Llv => n <= 99,
+                    Len::Lllv => n <= 999,
+                    Len::Tlv => n <= 65535,
+                    Len::Fixed(w) => n <= w,
+                    Len::None | Len::Temp => true,
+                }
+        })
+    })
+}
+/// A positional field follows the container entered by some step of `path` in its parent level
+/// (bytes a nested container leaves unconsumed would be parsed by position there).
+pub fn positional_follows_on_path(gs: &[Group], path: &[(usize, usize)]) -> bool {
+    let mut cur = gs;
+    for (gi, ei) in path {
+        if cur[*gi + 1..].iter().any(|g| g.tag.is_none()) {
+            return true;
+        }
+        match &cur[*gi].elems[*ei].node {
+            Node::Struct(inner) => cur = inner,
+            _ => break,
+        }
+    }
+    false
+}
